@@ -14,6 +14,50 @@ using namespace vf::tec;
 
 namespace {
 
+// TECMP::Decoder::Decode is a static, stateless function: it owes the same result whenever it is called, also during the
+// static initialisation of another translation unit (this one is linked in front of the library, so its initialisers
+// run first). A fixed set of well-formed frames is decoded here, before main(), and again inside a case.
+std::vector<std::string> decodeFixedSet()
+{
+    std::vector<std::string> out;
+    Rng r(0x15C0FFEE);
+    for (int i = 0; i < 60; ++i)
+    {
+        Bytes f = genTecmpFrame(r);
+        std::string s;
+        for (int entry = 0; entry < 2; ++entry)
+        {
+            std::vector<PacketPtr> got;
+            if (entry == 0)
+                got = TECMP::Decoder::Decode(f.data(), f.size());
+            else
+            {
+                ASAM::CMP::Decoder dec;
+                got = dec.decode(f.data(), f.size());
+            }
+            s += std::to_string(got.size()) + " packet(s):";
+            for (auto& p : got)
+                s += p ? " " + snapPacket(*p).str() : " null";
+            s += " | ";
+        }
+        out.push_back("frame=" + hex(f, 200) + " -> " + s);
+    }
+    return out;
+}
+const std::vector<std::string> gDecodedBeforeMain = decodeFixedSet();
+
+void beforeMainCase(Ctx& c)
+{
+    std::vector<std::string> now = decodeFixedSet();
+    for (size_t i = 0; i < now.size(); ++i)
+    {
+        ++c.evaluations;
+        if (i >= gDecodedBeforeMain.size() || now[i] != gDecodedBeforeMain[i])
+            c.violation("C15:result-of-a-call-before-main-differs", "decoded during static initialisation: " + (i < gDecodedBeforeMain.size() ? gDecodedBeforeMain[i] : std::string("(nothing)")) + " decoded now: " + now[i], now[i]);
+    }
+    c.count("frames_also_decoded_before_main", now.size());
+}
+
 void runCase(Ctx& c, TCase& tc)
 {
     expectation(tc);
@@ -342,6 +386,8 @@ long countCases(Ctx& c)
 }
 void runIdx(Ctx& c, long idx)
 {
+    if (idx == 0)
+        beforeMainCase(c);
     if (idx < 256)
         return famTypes(c, idx);
     idx -= 256;
